@@ -205,7 +205,8 @@ PROPS = {
                     "gate Runtime::stmt_is_pruned / function_is_pruned (exactly plan membership; nothing without a plan).  CFG (Verus, unit cfg_loop: the "
                     "Stmt::Loop arm of FunctionBuilder::lower_stmt cut from src/analysis/cfg.rs): the lowered loop has the shape the language "
                     "defines -- pre -> cond, cond branches to a fresh body entry or a fresh exit, the body is lowered with comot -> exit and "
-                    "next -> cond, the body tail goes back to cond, lowering continues in exit; comot/next edges target the enclosing loop's exit/condition.  "
+                    "next -> cond, the body tail goes back to cond, lowering continues in exit; comot/next edges target the enclosing loop's exit/condition; an if branches to two fresh entries, lowers each present branch under "
+                    "the SAME loop context, joins the open tails in a fresh block and has no fall-through exactly when neither side has.  "
                     "SUMMARIES (Verus, unit summary_step: the body of summarize_component's callee loop and the real ExprClass::join): absorbing a "
                     "callee puts everything it may transitively call / read / write through captures into the caller's sets, never drops anything, "
                     "reports growth, raises the caller's running class to at least the callee's TRANSITIVE class, and aborts on an unavailable callee.  "
